@@ -33,6 +33,9 @@ def text_cases(tier):
             continue
         for t in itertools.product(TEXT_SIGMA, repeat=l):
             yield 'len%d' % l, ''.join(t)
+    if tier != 'quick':
+        for t in itertools.product(TEXT_SIGMA[:24], repeat=4):
+            yield 'len4 (24-point core)', ''.join(t)
     # quote choice depends on the counts of both quote kinds: every string of length 3..6 over a 6-symbol core
     for l in range(3, 7 if tier == 'quick' else 8):
         for t in itertools.product(QUOTE_CORE, repeat=l):
@@ -40,7 +43,7 @@ def text_cases(tier):
 
 
 def bytes_cases(tier):
-    for l in range(0, 3):
+    for l in range(0, 3 if tier == 'quick' else 4):
         for t in itertools.product(range(256), repeat=l):
             yield 'blen%d' % l, bytes(t)
     n = 3 if tier == 'quick' else 4
@@ -143,9 +146,10 @@ def run(tier, seed):
         total.merge(r)
     total.extra['delta_set_size'] = len(load_delta())
     rule = ('text: every Unicode scalar value as a 1-char string + every string of length<=%d over a %d-point class alphabet + every string of length 3..%d over {\', ", backslash, a, é, LF} (quote choice); bytes: every '
-            'byte string of length<=2 + every string of length<=%d over a 12-byte alphabet; each through UnicodeEscape/AsciiEscape::new_repr, '
+            'byte string of length<=%d + every string of length<=%d over a 12-byte alphabet; each through UnicodeEscape/AsciiEscape::new_repr, '
             'the result fed to CPython ast.literal_eval and to the real Constant::parse; non-trivial = the value needs at least one escape '
-            '(changed()); distinct = distinct value' % (2 if tier == 'quick' else 3, len(TEXT_SIGMA), 6 if tier == 'quick' else 7, 3 if tier == 'quick' else 4))
+            '(changed()); distinct = distinct value' % (2 if tier == 'quick' else 3, len(TEXT_SIGMA), 6 if tier == 'quick' else 7, 2 if tier == 'quick' else 3, 3 if tier == 'quick' else 4)
+            + ('' if tier == 'quick' else '; text of length 4 over the first 24 points of the class alphabet'))
     return C.finish(PROP, tier, seed, t0, total, rule,
                     ['CPython 3.11 repr/ast.literal_eval define the reference',
                      'frozen version-delta set D (vp/data/c16_delta.json): code points whose printable status differs between the crate\'s '
